@@ -66,6 +66,12 @@ Lin(t) ==
               \/ /\ pend[t].conc                                              \* refused by a race
                  /\ \E e \in Transient : Done(t, e)
                  /\ UNCHANGED <<att, param>>
+              \* ... or because an overlapping attach of the SAME role holds the role for a moment before it is
+              \* refused itself (a port registers first and checks the parameters afterwards)
+              \/ /\ \E u \in Threads \ {t} : /\ pend[u].st # "idle" /\ pend[u].a \in {"S", "Sx", "R", "Rx"}
+                                              /\ RoleOf(pend[u].a) = role
+                 /\ Done(t, "AnotherInstanceIsAlreadyConnected")
+                 /\ UNCHANGED <<att, param>>
               \* ... or by the parameters of the connection that an overlapping call was still holding while it
               \* left or was being refused itself (`param` keeps the parameters of the most recent connection)
               \/ /\ pend[t].conc /\ param # 0 /\ param # ParamOf(a)
